@@ -116,10 +116,34 @@ SLICE_HEADS = ("slice::split_first", "slice::first", "slice::split_last", "slice
 _RANGE_FROM_1 = ("struct", "std::ops::RangeFrom", "RangeFrom", {"start": ("lit", "1")})
 
 
+def _ctor_arm(t, v):
+    """t = match s { A => V(x), B => W(y), C => <diverges> } where every arm that yields a value yields a constructor call of one enum and exactly
+    one of them the variant v: that arm (pattern, guard, body), else None"""
+    if t[0] != "match" or any(g is not None for _p, g, _b in t[2]) or "::" not in v:
+        return None
+    enum = v.rsplit("::", 1)[0]
+    hit = None
+    for a in t[2]:
+        b = a[2]
+        if _diverges(b):
+            continue
+        if b[0] != "call" or "::" not in b[1] or b[1].rsplit("::", 1)[0] != enum or not re.fullmatch(r"[A-Za-z_][\w:]*(\([$_,]*\))?", a[0]):
+            return None
+        if b[1] == v:
+            if hit is not None:
+                return None
+            hit = a
+    return hit
+
+
 def _let(pat, scr):
     """the condition `let PAT = SCR`; `let Some(..) = xs.first() / xs.split_first()` (binders only) is `!xs.is_empty()`"""
     if re.fullmatch(r"[A-Za-z_][\w:]*\(_\)", pat):
         pat = pat[:-3] + "($)"          # whether the payload is bound or ignored does not matter for the test
+    if scr[0] == "match" and re.fullmatch(r"[A-Za-z_][\w:]*\([$_]\)", pat):
+        arm = _ctor_arm(scr, pat.split("(")[0])
+        if arm is not None:
+            return _let(arm[0], scr[1])      # (match s { A => V(x), B => W(y) }) is V  ==  s is A
     if pat in ("v1::None", "Option::None"):
         return _not(_let("v1::Some($)", scr))
     if pat.startswith("(") and pat.endswith(")") and scr[0] == "tup":
@@ -2950,6 +2974,8 @@ class Norm:
                 elif v in ("v1::Some", "Option::Some") and acc == "0" and (t[0] == "if" and ("def", "v1::None") in (t[2], t[3])
                                                                            or t[0] == "call" and t[1] in ("then", "Option::zip") and len(t[2]) == 2):
                     t = _proj_some(t)
+                elif _ctor_arm(t, v) is not None and acc.isdigit() and int(acc) < len(_ctor_arm(t, v)[2][2]):
+                    t = _ctor_arm(t, v)[2][2][int(acc)]       # the payload of `match s { A => V(x), B => W(y) }` seen as V is x
                 elif t[0] == "call" and t[1] in ("slice::split_first",) and len(t[2]) == 1 and v in ("v1::Some", "Option::Some") and acc == "0":
                     t = ("tup", [("index", t[2][0], ("lit", "0")), ("index", t[2][0], _RANGE_FROM_1)])     # xs.split_first() = (xs[0], xs[1..])
                 elif t[0] == "call" and t[1] in ("slice::first", "Vec::first") and len(t[2]) == 1 and v in ("v1::Some", "Option::Some") and acc == "0":
